@@ -351,6 +351,9 @@ func Shrink(sc *Scenario, w *World, maxTries int, budget time.Duration) (*World,
 			if !ok {
 				continue
 			}
+			if sc.Valid != nil && !sc.Valid(c) {
+				continue
+			}
 			if run(c) {
 				best = c
 				progress = true
